@@ -27,6 +27,8 @@ func catErrClass(msg string) string {
 	switch {
 	case msg == "":
 		return "ok"
+	case strings.Contains(m, "items but") && strings.Contains(m, "categories"):
+		return "err:keylen"
 	case strings.Contains(m, "can not overwrite file"):
 		return "err:exists"
 	case strings.Contains(m, "category name does not match"):
@@ -415,7 +417,7 @@ func (g *Gen) catScenario(kind string) (string, []string) {
 		add("Y:" + k)
 		add("F")
 		add("K")
-	case "prefix": // Destroy with a 1- or 2-item key: stale directMap entries; only listings until restart
+	case "prefix": // Destroy with a 1- or 2-item key (a whole symbol / timeframe), then listings, writes, restart
 		k := g.catKey()
 		k2 := g.catKey()
 		add(fmt.Sprintf("C:%s:%s:0", k, catDefault))
@@ -428,9 +430,15 @@ func (g *Gen) catScenario(kind string) (string, []string) {
 		add("D:" + pk)
 		add("Y:" + k)
 		add("Y:" + k2)
+		add("I:" + k)
 		add("L")
 		add("F")
 		add("K")
+		if g.Intn(2) == 0 { // the destroyed bucket is written again without a restart
+			add(fmt.Sprintf("W:%s:0:%s", k, g.catYears(now)))
+			add("F")
+			tags = append(tags, "write_after_prefix_destroy")
+		}
 		add("R")
 		add("Y:" + k)
 		add("L")
@@ -571,7 +579,9 @@ func init() {
 //                   start orders; the final state must not depend on the order
 //   dc              t1 = Destroy, t2 = Create of another bucket of the same symbol, directed so that
 //                   Create runs after Destroy's last RemoveAll and before Destroy's final
-//                   root.removeSubDir.  The schedule is forced WITHOUT touching /repo: the harness
+//                   root.removeSubDir - if the code lets it (before the repair "catalog structure
+//                   changes under the root are serialized" it did; now Create waits for the mutex
+//                   Destroy holds and the requests run one after the other).  The schedule is forced WITHOUT touching /repo: the harness
 //                   plays two concurrent readers by holding read locks through the exported
 //                   (embedded) sync.RWMutex of two Directory objects:
 //                     1. RLock the leaf Directory  -> Destroy stops in removeDirFiles(leaf).Lock()
@@ -671,8 +681,8 @@ func catraceRun(a []string, accepted *bool) string {
 		}
 		// No sleeps decide the schedule: each wait polls for the state that proves the other
 		// goroutine has reached the intended lock (TryRLock fails while a writer is pending).
-		waitFor := func(cond func() bool) bool {
-			for i := 0; i < 20000; i++ {
+		waitN := func(n int, cond func() bool) bool {
+			for i := 0; i < n; i++ {
 				if cond() {
 					return true
 				}
@@ -680,6 +690,7 @@ func catraceRun(a []string, accepted *bool) string {
 			}
 			return false
 		}
+		waitFor := func(cond func() bool) bool { return waitN(20000, cond) }
 		pendingWriter := func(d *catalog.Directory) func() bool {
 			return func() bool {
 				if d.TryRLock() {
@@ -696,7 +707,10 @@ func catraceRun(a []string, accepted *bool) string {
 		ok1 := waitFor(pendingWriter(leaf)) // Destroy waits in removeDirFiles(leaf).Lock()
 		cat.RLock()
 		go run(t2, &r2, d2)
-		ok2 := waitFor(pendingWriter(cat)) // Create waits in AddTimeBucket's d.Lock()
+		// Create waits in AddTimeBucket's d.Lock() - or, in the repaired code, already for the root's
+		// mutMu, which Destroy holds: then it never reaches the root lock and this wait runs out
+		// (2 s); the schedule continues and the two requests end up one after the other.
+		waitN(4000, pendingWriter(cat))
 		leaf.RUnlock()
 		ok3 := waitFor(func() bool { // Destroy has removed the symbol's directory (or has finished)
 			select {
@@ -711,8 +725,8 @@ func catraceRun(a []string, accepted *bool) string {
 		cat.RUnlock()
 		<-d1
 		<-d2
-		if !ok1 || !ok2 || !ok3 {
-			return fmt.Sprintf("harness:sync-timeout %v %v %v", ok1, ok2, ok3)
+		if !ok1 || !ok3 {
+			return fmt.Sprintf("harness:sync-timeout %v %v", ok1, ok3)
 		}
 		// intended schedule achieved iff the Create ran after ALL of Destroy's disk removals:
 		// it succeeded and its year file is on disk
